@@ -1,5 +1,7 @@
 import NixModel.Lemmas.C20Frame
 import NixModel.Lemmas.C20Shape
+import NixModel.Lemmas.C20HistDel
+import NixModel.Lemmas.C20DelObj
 
 /-!
 # C20 — copies are complete, independent, and keep their internal links
@@ -682,6 +684,100 @@ theorem independent_append (hdst : FileOk dst) (ho : owner ∈ keys dst)
       · exact old_ne_new hdst h hk' rfl
       · exact hne h.1
 
+/-! ### histories
+
+`independent_history`: after a deep copy, **any sequence of API calls** (`Store.Op`: creating sections,
+properties, arrays, tags, multi-tags, groups, sources, features; appending to and removing from
+link lists; setting and clearing role links and attributes; deleting entities; re-opening) made *on
+entities of the copy's side* (the duplicates and whatever was created later), with every entity
+argument taken from that side in the state the call is made in, leaves every node of the
+destination file as it was — attributes unchanged, link lists unchanged except that the link from
+the destination container to a deleted copy may disappear (`LocalUpd`). Deletions of entities are
+global by `entity_id`: they are covered when the ids were regenerated and the destination's ids come
+from its own supply (`IdsBelow`, true of every file built by the API without id-keeping copies from
+elsewhere); a history without such deletions (unlinking from link lists is fine) is covered for
+both id policies. The invariant carried through the history is `SideInv` (the side stays closed
+under links) and `IdInv` (ids of the two sides stay disjoint). -/
+
+/-- every id in the file was drawn from the file's own supply -/
+def IdsBelow (g : Graph) : Prop := ∀ k i, g.entityId k = some i → ∃ j, j < g.nextId ∧ i = idStr j
+
+section
+variable {src dst : Graph} {owner obj : Nat} {cls name : String} {keepId : Bool} {g' : Graph} {root : Nat}
+
+/-- a node of the result at or above the old node supply is a duplicate -/
+theorem new_of_ge (hdst : FileOk dst)
+    (hc : copyGeneric src dst owner cls obj name false keepId = .ok (g', root)) {k : Nat}
+    (hk : (destG dst owner cls).nextKey ≤ k) (hn : (g'.node? k).isSome) : IsNew src dst owner cls obj k := by
+  rcases ((copy_complete hdst hc).2.2.1 k).mp ((node?_isSome_iff g' k).mp hn) with h | h
+  · have := (destOk_dest hdst owner cls).lt k h; omega
+  · exact h
+
+/-- the result of a deep copy satisfies the side invariant: the duplicates are closed under links -/
+theorem sideInv_after_copy (hdst : FileOk dst)
+    (hc : copyGeneric src dst owner cls obj name false keepId = .ok (g', root)) :
+    SideInv (destG dst owner cls).nextKey dst.nextId g' := by
+  obtain ⟨_, hg, _⟩ := copyGeneric_ok hc
+  refine ⟨?_, ?_, ?_⟩
+  · rw [nextKey_result hc]; omega
+  · rw [hg, ← nextId_ensureGroup dst owner cls]; exact core_nextId_le
+  · intro k hk l hl
+    have hnew := new_of_ge hdst hc hk (node?_isSome_of_link hl)
+    exact (new_ge (copy_closed hdst hc k hnew l hl)).1
+
+/-- … and, when the ids were regenerated, the ids of the two sides are disjoint -/
+theorem idInv_after_copy (hdst : FileOk dst) (hb : IdsBelow dst)
+    (hc : copyGeneric src dst owner cls obj name false false = .ok (g', root)) :
+    IdInv (destG dst owner cls).nextKey dst.nextId g' := by
+  obtain ⟨_, hg, _⟩ := copyGeneric_ok hc
+  constructor
+  · intro k hk i hi
+    have hn : (g'.node? k).isSome := node?_isSome_of_getAttr hi
+    obtain ⟨k0, hr, e⟩ := new_of_ge hdst hc hk hn
+    have hf := ids_fresh hdst hc k0 hr
+    rw [e] at hi
+    cases hs : src.entityId k0 with
+    | none => rw [hf.1 hs] at hi; cases hi
+    | some i0 =>
+      obtain ⟨n, hn1, hn2, hn3⟩ := hf.2 i0 hs
+      rw [hn3] at hi
+      simp only [Option.some.injEq] at hi
+      exact ⟨n, hn1, hn2, hi.symm⟩
+  · intro k hk i hi
+    have hself : obj ∈ copySet src obj false := reachFrom_self src obj
+    rw [entityId_eq, hg, core_getAttr_old hself hk] at hi
+    unfold destG at hi
+    rw [getAttr_ensureGroup] at hi
+    exact hb k i hi
+
+/-- **independent (histories)**: see the section comment. `gd = true` admits global deletions and then
+needs regenerated ids and `IdsBelow dst`. -/
+theorem independent_history (hdst : FileOk dst)
+    (hc : copyGeneric src dst owner cls obj name false keepId = .ok (g', root))
+    (gd : Bool) (hgd : gd = true → keepId = false ∧ IdsBelow dst) (ops : List Op)
+    (ha : AddressedAll (destG dst owner cls).nextKey gd g' ops) :
+    LocalUpd (destG dst owner cls).nextKey dst.nextId g' (run g' ops) := by
+  apply lu_run ops (sideInv_after_copy hdst hc) _ ha
+  intro h
+  obtain ⟨hk, hb⟩ := hgd h
+  subst hk
+  exact idInv_after_copy hdst hb hc
+
+/-- the same in terms of what can be observed at the old nodes: same attributes; the links that lead
+to old nodes all kept, nothing added, order kept -/
+theorem independent_history_observed (hdst : FileOk dst)
+    (hc : copyGeneric src dst owner cls obj name false keepId = .ok (g', root))
+    (gd : Bool) (hgd : gd = true → keepId = false ∧ IdsBelow dst) (ops : List Op)
+    (ha : AddressedAll (destG dst owner cls).nextKey gd g' ops) (k : Nat) (hk : IsOld dst owner cls k) :
+    (∀ a, (run g' ops).getAttr k a = g'.getAttr k a) ∧
+    ((run g' ops).links k).Sublist (g'.links k) ∧
+    (∀ l ∈ g'.links k, IsOld dst owner cls l.2 → l ∈ (run g' ops).links k) := by
+  have h := independent_history hdst hc gd hgd ops ha
+  have hlt := old_lt hdst hk
+  exact ⟨h.attrs k hlt, h.sub k hlt, fun l hl ho => h.keep k hlt l hl (old_lt hdst ho)⟩
+
+end
+
 /-! ### deletion
 
 `Container.__delitem__` removes, file-wide, every link to an object that carries one of the deleted
@@ -786,9 +882,68 @@ theorem independent_delete_counterexample : ¬ independent_delete_full := by
   revert this
   decide
 
+/-! #### with deletion by object (the proposed repair, `reports/C20-delete-by-object.*`)
+
+`deleteObjs` removes the links that lead to the deleted *objects* instead of to any object with their
+ids. For it the full statement holds, for both id policies, in both directions: -/
+
+/-- deleting objects of the destination file as it was (in particular the source and anything below
+it) leaves every node of the copy, and the copy's entry in its container, as they were -/
+theorem repaired_delete_old_side (hdst : FileOk dst)
+    (hc : copyGeneric src dst owner cls obj name false keepId = .ok (g', root)) (ks : List Nat)
+    (hks : ∀ k ∈ ks, IsOld dst owner cls k) :
+    (∀ k', IsNew src dst owner cls obj k' → SameNode g' (deleteObjs g' ks) k') ∧
+    (effName src obj name, root) ∈ (deleteObjs g' ks).links (destC dst owner cls) := by
+  constructor
+  · intro k' hk'
+    apply same_deleteObjs
+    intro l hl hmem
+    exact old_ne_new hdst (hks _ hmem) (copy_closed hdst hc k' hk' l hl) rfl
+  · rw [links_deleteObjs, List.mem_filter]
+    refine ⟨child?_some_mem (name_used hdst hc).1, ?_⟩
+    have hroot : IsNew src dst owner cls obj root := ⟨obj, .refl, (copy_complete hdst hc).1⟩
+    have : root ∉ ks := fun hmem => old_ne_new hdst (hks _ hmem) hroot rfl
+    simpa using this
+
+/-- deleting objects of the copy leaves every old node as it was, except that the destination
+container loses its link to the copy's root when that is among the deleted objects -/
+theorem repaired_delete_new_side (hdst : FileOk dst) (ho : owner ∈ keys dst)
+    (hc : copyGeneric src dst owner cls obj name false keepId = .ok (g', root)) (ks : List Nat)
+    (hks : ∀ k ∈ ks, IsNew src dst owner cls obj k) (k : Nat) (hk : IsOld dst owner cls k)
+    (hkc : k ≠ destC dst owner cls ∨ root ∉ ks) : SameNode g' (deleteObjs g' ks) k := by
+  apply same_deleteObjs
+  intro l hl hmem
+  rcases old_links hdst ho hc k hk l hl with h | h
+  · exact old_ne_new hdst h (hks _ hmem) rfl
+  · rcases hkc with h' | h'
+    · exact h' h.1
+    · rw [h.2] at hmem; exact h' hmem
+
 /-- non-vacuity: the same copy with regenerated ids succeeds and survives the deletion -/
 example : (copyGeneric oneArrayFile oneArrayFile 2 "data_arrays" 4 "a2" false false).toOption.isSome = true := by
   decide
+
+/-! ### non-vacuity of `independent_history` -/
+
+/-- `linkedFile` after copying its block `b` as `b2` with fresh ids (duplicates: keys 8–13) -/
+def copiedFile : Graph :=
+  ((copyGeneric linkedFile linkedFile 0 "data" 2 "b2" false false).toOption.map (·.1)).getD {}
+
+/-- a history on the copy: relabel the copied array, then delete it (deletion: global by id) -/
+def copyHistory : List Op :=
+  [.setAttr [.name "data", .name "b2", .name "data_arrays", .name "a"] "label" (some "x"),
+   .del [.name "data", .name "b2"] "data_arrays" (.pos 0)]
+
+/-- every call of it is addressed to the side `≥ 8` in the state it is made in -/
+example : AddressedAll 8 true copiedFile copyHistory :=
+  ⟨⟨_, rfl, by decide⟩, .inl rfl, ⟨⟨_, rfl, by decide⟩, trivial⟩, .inl rfl, trivial⟩
+
+/-- it changes the copy (the copied block loses its array, the copied tag its reference to it) and
+nothing of the original -/
+example : ((run copiedFile copyHistory).links 9, (run copiedFile copyHistory).links 13,
+    (run copiedFile copyHistory).links 3, (run copiedFile copyHistory).links 7,
+    (run copiedFile copyHistory).getAttr 4 "label") =
+    ([], [], [("a", 4)], [("id:0", 4)], none) := by decide
 
 /-! ### non-vacuity of the source-shape theorems; what a narrower visitor would do -/
 
